@@ -2,6 +2,7 @@ package checks
 
 import (
 	"fmt"
+	"math/rand/v2"
 	"strings"
 	"time"
 
@@ -28,19 +29,7 @@ func init() {
 func runC20(c *Case) {
 	g := newScriptGen(c)
 	r := c.Rng
-	cfgPool := []model.HistSpec{{Topic: "a.b", Match: "exact"}, {Topic: "a.b.c", Match: "exact"}, {Topic: "a", Match: "prefix"}, {Topic: "a.b.", Match: "prefix"},
-		{Topic: "a..c", Match: "wildcard"}, {Topic: ".b.", Match: "wildcard"}}
-	var hist []model.HistSpec
-	seen := map[string]bool{}
-	for n := 1 + r.IntN(3); n > 0; n-- {
-		h := pick(r, cfgPool)
-		if seen[h.Topic+h.Match] {
-			continue
-		}
-		seen[h.Topic+h.Match] = true
-		h.Limit = pick(r, []int{1, 2, 3, 8})
-		hist = append(hist, h)
-	}
+	hist := randomHistory(r)
 	realm := RealmSetup{RealmSpec: model.RealmSpec{Name: "realm1", MetaKill: true, History: hist}}
 	var setups []PuppetSetup
 	var script []string
@@ -195,4 +184,23 @@ func runC20(c *Case) {
 	if c.Index < 3 || len(c.Viol) > 0 {
 		c.Sample = map[string]any{"history": fmt.Sprint(hist), "sessions": puppetStrings(setups), "script": clip(script, 70)}
 	}
+}
+
+var histCfgPool = []model.HistSpec{{Topic: "a.b", Match: "exact"}, {Topic: "a.b.c", Match: "exact"}, {Topic: "a", Match: "prefix"}, {Topic: "a.b.", Match: "prefix"},
+	{Topic: "a..c", Match: "wildcard"}, {Topic: ".b.", Match: "wildcard"}}
+
+// randomHistory picks 1-3 event-history configurations over the shared topic pool.
+func randomHistory(r *rand.Rand) []model.HistSpec {
+	var hist []model.HistSpec
+	seen := map[string]bool{}
+	for n := 1 + r.IntN(3); n > 0; n-- {
+		h := pick(r, histCfgPool)
+		if seen[h.Topic+h.Match] {
+			continue
+		}
+		seen[h.Topic+h.Match] = true
+		h.Limit = pick(r, []int{1, 2, 3, 8})
+		hist = append(hist, h)
+	}
+	return hist
 }
